@@ -22,7 +22,7 @@ from .oracle import class_key, det3
 from .tla_values import to_tla
 
 VERIF = tlcmod.VERIF
-_MODS = ["IntLinAlg", "Crystal", "Springs", "Catalogue", "AngleSprings", "DispAlgo", "FiniteDifference"]
+_MODS = ["IntLinAlg", "Crystal", "Springs", "Catalogue", "AngleSprings", "C01Catalogue", "DispAlgo", "FiniteDifference"]
 SYMBOL_OF = {1: "Na", 2: "Cl", 3: "Si", 4: "O"}
 
 CFG_REF = """SPECIFICATION Spec
@@ -31,6 +31,7 @@ CONSTANTS
  PMs <- MCPMs
  Diags <- MCDiags
  Syms <- MCSyms
+ Trigs <- MCTrigs
 CHECK_DEADLOCK FALSE
 CONSTRAINT StopAfterCells
 INVARIANT HypReps
@@ -52,12 +53,13 @@ def _spec_hash():
 
 def skey(s):
     return json.dumps([s["entry"], s["model"], [[int(x) for x in r] for r in s["S"]]])
+    # (the reference array does not depend on the magnetic flag: it only selects the symmetry group)
 
 
 def session_tla(s, extra=None):
     d = dict(entry=s["entry"], S=[[int(x) for x in r] for r in s["S"]],
              ptrans=frozenset(tuple(int(x) for x in t) for t in s["ptrans"]), box=int(s.get("box", 3)),
-             model=s["model"], chk=bool(s.get("chk", False)))
+             model=s["model"], chk=bool(s.get("chk", False)), mag=s.get("mag", "none"))
     if extra:
         d.update(extra)
     return to_tla(d)
@@ -91,10 +93,10 @@ def reference(sessions, ctx=None, workers=None, timeout=1500):
         for s, _, _ in todo:          # the brute-force comparison of the space group once per entry
             s["chk"] = s["entry"] not in seen_entries
             seen_entries.add(s["entry"])
-        mc = ("---- MODULE MC_FDRef ----\nEXTENDS FiniteDifference\nMCSessions == {%s}\nMCPMs == {}\nMCDiags == {}\nMCSyms == {}\n"
+        mc = ("---- MODULE MC_FDRef ----\nEXTENDS FiniteDifference\nMCSessions == {%s}\nMCPMs == {}\nMCDiags == {}\nMCSyms == {}\nMCTrigs == {}\n"
               "StopAfterCells == pc \\in {\"start\", \"bonds\", \"series\", \"atoms\", \"keys\", \"cells\"}\n"
-              "ASSUME \\A n \\in %s : PrintT(<<\"CRYSTAL\", n, EntryByName(n).G, EntryByName(n).D, EntryByName(n).atoms>>)\n====\n"
-              % (", ".join(session_tla(dict(s, ptrans=[[0, 0, 0]])) for s, _, _ in todo), to_tla(set(names))))
+              "ASSUME \\A n \\in %s : PrintT(<<\"CRYSTAL\", n, EntryOf(n).G, EntryOf(n).D, EntryOf(n).atoms>>)\n====\n"
+              % (", ".join(session_tla(dict(s, ptrans=[[0, 0, 0]], mag="none")) for s, _, _ in todo), to_tla(set(names))))
         res = tlcmod.run("MC_FDRef", cfg_text=CFG_REF, extra_files={"MC_FDRef.tla": mc}, dump=True, keep=True,
                          workers=workers or min(8, max(2, len(todo))), timeout=timeout)
         try:
@@ -131,7 +133,14 @@ def reference(sessions, ctx=None, workers=None, timeout=1500):
 class Realised:
     """One catalogue entry on a real, randomly oriented lattice."""
 
-    def __init__(self, crystal, a=2.0, seed=0, left_handed=False):
+    def __init__(self, crystal, a=2.0, seed=0, left_handed=False, mag="none", perturb=0.0):
+        """mag: "none"; "ferri": ONE chemical symbol, collinear moments +2 / -1 by species (magnitudes differ:
+        the magnetic group is the species-preserving group); "afm": moments +1 / -1 (equal magnitudes: the
+        magnetic group also contains the operations exchanging the sublattices).  perturb: Cartesian amplitude
+        of a random position noise (to be kept below symprec)."""
+        self.mag = mag
+        self.perturb = float(perturb)
+        self._rng = np.random.default_rng(seed + 7919)
         self.cr = crystal
         self.D = int(crystal["D"])
         self.G = np.array(crystal["G"], dtype=float)
@@ -147,22 +156,30 @@ class Realised:
     def unitcell(self):
         from phonopy.structure.atoms import PhonopyAtoms
 
-        return PhonopyAtoms(symbols=[SYMBOL_OF[s] for s in self.species],
-                            scaled_positions=np.array(self.num, dtype=float) / self.D,
-                            cell=self.L, masses=self.masses)
+        pos = np.array(self.num, dtype=float) / self.D
+        if self.perturb:
+            noise = self._rng.uniform(-1, 1, size=pos.shape)
+            noise *= self.perturb / np.sqrt(3.0) / np.abs(noise).max()
+            pos = pos + noise @ self.Linv          # Cartesian noise of length <= perturb
+        if self.mag == "none":
+            return PhonopyAtoms(symbols=[SYMBOL_OF[s] for s in self.species], scaled_positions=pos,
+                                cell=self.L, masses=self.masses)
+        moments = {"ferri": {1: 2.0, 2: -1.0}, "afm": {1: 1.0, 2: -1.0}}[self.mag]
+        return PhonopyAtoms(symbols=[SYMBOL_OF[1]] * len(self.species), scaled_positions=pos, cell=self.L,
+                            masses=self.masses, magnetic_moments=[moments[s] for s in self.species])
 
     def match_atoms(self, S, cell, supercell):
         """real supercell atom k -> 0-based index in the specification's atom list (by position)."""
         spec_index = {(at["a"], class_key(S, self.D, at["u"])): k for k, at in enumerate(cell["atoms"])}
         u, resid = xtal.project_to_unit(supercell.positions, self.L, self.D)
-        if resid > 1e-6:
+        if resid > 1e-6 + 2 * self.perturb * self.D:
             raise AssertionError("supercell positions are not on the 1/D grid: %g" % resid)
         idx = []
         for k in range(len(supercell)):
             a = None
             for ai, n in enumerate(self.num):
                 if all((int(u[k][i]) - n[i]) % self.D == 0 for i in range(3)) and \
-                        SYMBOL_OF[self.species[ai]] == supercell.symbols[k]:
+                        (self.mag != "none" or SYMBOL_OF[self.species[ai]] == supercell.symbols[k]):
                     a = ai + 1
                     break
             idx.append(spec_index[(a, class_key(S, self.D, u[k]))])
